@@ -246,6 +246,29 @@ def run(ck):
             ck.violation('mdsort exited %d on well-formed messages: %r' % (rc, err[-300:]), {'stream': 'binary', 'config': conf.decode(errors='replace')})
         sb.cleanup()
 
+    # ---- stream 5 (runs before 4 for historical reasons of the random stream): a rewrite that FAILS for one message leaves no trace in the
+    # rewrites of the messages after it: every file afterwards is an original or exactly what the fault-free run writes
+    import iorun as _io
+    for rule in ('label "L"', 'add-header "X-Added" "v"', 'label "L" add-header "X-B" "2"'):
+        scen = _io.Scen('c08-%s' % rule.split()[0], rule, _io.make_msgs(3, with_label=True))
+        rc0, err0, trace0, tree0, tl0 = scen.run()
+        calls0 = _io.parse_trace(trace0)
+        legit = set(b for b, mt in tree0.values()) | set(c for _, _, c in scen.msgs)
+        cand = [c for c in calls0 if c['call'] in ('write', 'fprintf', 'fflush', 'fclose', 'fsync', 'openat') and '/src/' in c['args'] or c['call'] in ('fprintf', 'fflush', 'fclose', 'write', 'fsync')]
+        step = max(1, len(cand) // (10 if ck.tier == 'quick' else 60))
+        for c in cand[::step]:
+            errs = _io.ERRNOS.get(c['call'])
+            if not errs:
+                continue
+            plan = '%d:errno=%s' % (c['k'], errs[0])
+            rc, err, trace, tree, tl = scen.run(plan=plan)
+            stats['evals'] += 1; stats['binary'] += 1
+            strange = [(loc, len(b)) for loc, (b, mt) in tree.items() if b not in legit]
+            if strange:
+                ck.violation('rule %r over three messages, %s at call %d (%s): afterwards the maildir holds file(s) that are neither an original nor what the fault-free '
+                             'run writes: %r (exit %d)' % (rule, errs[0], c['k'], c['call'], strange[:3], rc),
+                             {'stream': 'fault-then-rewrite', 'rule': rule, 'plan': plan, 'exit': rc, 'stderr': err[-300:].decode(errors='replace')})
+                break
     # ---- stream 4: the copy across file systems (rename fails with EXDEV), alone and combined with a rewrite in the same rule ----
     import iorun
     nx = 4 if ck.tier == 'quick' else 40
